@@ -27,6 +27,8 @@ type Ctx struct {
 	expanded map[*ssa.BasicBlock]map[fact]bool // facts plus what known-true helper calls imply (helperfacts.go)
 	helperS  map[string][]fact                 // summaries of helpers
 	noExpand int                               // >0 while a summary is being computed
+	anchors  *anchorFile                       // the committed baseline of function fingerprints (anchors.go)
+	refound  map[string]*ssa.Function
 	reach    map[*ssa.Function]bool            // reachable from exported API
 	declOf   map[*types.Func]*ast.FuncDecl
 	astFiles map[*ast.File]*packages.Package
@@ -36,6 +38,18 @@ func newCtx(p *Program, tier string) *Ctx {
 	c := &Ctx{Program: p, Tier: tier, CGAlg: "cha", guards: map[*ssa.Function]*guardInfo{}}
 	if tier == "thorough" {
 		c.CGAlg = "vta"
+	}
+	memo := map[*ssa.Function]string{}
+	baselineNameHook = func(fn *ssa.Function) string {
+		if fn == nil || fn.Synthetic != "" || !c.isLibPkg(funcPkg(fn)) {
+			return ""
+		}
+		if v, ok := memo[fn]; ok {
+			return v
+		}
+		memo[fn] = ""
+		memo[fn] = c.baselineName(fn)
+		return memo[fn]
 	}
 	return c
 }
@@ -51,9 +65,19 @@ func (c *Ctx) pkgOf(which string) *ssa.Package {
 }
 
 // fn returns a package-level function of the engine package ("" if missing -> nil).
-func (c *Ctx) fn(name string) *ssa.Function { return c.Engine.Func(name) }
+func (c *Ctx) fn(name string) *ssa.Function {
+	if f := c.Engine.Func(name); f != nil {
+		return f
+	}
+	return c.refind("engine." + name) // renamed? (anchors.go)
+}
 
-func (c *Ctx) rootFn(name string) *ssa.Function { return c.Root.Func(name) }
+func (c *Ctx) rootFn(name string) *ssa.Function {
+	if f := c.Root.Func(name); f != nil {
+		return f
+	}
+	return c.refind("root." + name)
+}
 
 // method returns the method of a named type T (tries T and *T).
 func (c *Ctx) methodIn(pkg *ssa.Package, typ, name string) *ssa.Function {
@@ -84,9 +108,19 @@ func (c *Ctx) methodIn(pkg *ssa.Package, typ, name string) *ssa.Function {
 	return nil
 }
 
-func (c *Ctx) method(typ, name string) *ssa.Function { return c.methodIn(c.Engine, typ, name) }
+func (c *Ctx) method(typ, name string) *ssa.Function {
+	if f := c.methodIn(c.Engine, typ, name); f != nil {
+		return f
+	}
+	return c.refind("engine.(" + typ + ")." + name)
+}
 
-func (c *Ctx) rootMethod(typ, name string) *ssa.Function { return c.methodIn(c.Root, typ, name) }
+func (c *Ctx) rootMethod(typ, name string) *ssa.Function {
+	if f := c.methodIn(c.Root, typ, name); f != nil {
+		return f
+	}
+	return c.refind("root.(" + typ + ")." + name)
+}
 
 func (c *Ctx) named(pkg *ssa.Package, name string) *types.Named {
 	m, ok := pkg.Members[name].(*ssa.Type)
@@ -100,8 +134,10 @@ func (c *Ctx) named(pkg *ssa.Package, name string) *types.Named {
 func (c *Ctx) engType(name string) *types.Named { return c.named(c.Engine, name) }
 
 func (c *Ctx) global(name string) *ssa.Global {
-	g, _ := c.Engine.Members[name].(*ssa.Global)
-	return g
+	if g, ok := c.Engine.Members[name].(*ssa.Global); ok {
+		return g
+	}
+	return c.refindAtom(name)
 }
 
 // isEng reports whether t (after stripping pointers) is the engine type with that name.
@@ -154,7 +190,28 @@ func fname(fn *ssa.Function) string {
 	s := fn.String()
 	s = strings.ReplaceAll(s, enginePkgPath, "engine")
 	s = strings.ReplaceAll(s, rootPkgPath, "prolog")
+	// a renamed function keeps the name the rules (allow-lists, construct keys) know it by (anchors.go)
+	if baselineNameHook != nil {
+		top := topFunc(fn)
+		if old := baselineNameHook(top); old != "" {
+			s = strings.Replace(s, "."+top.Name(), "."+old, 1)
+			s = strings.Replace(s, ")."+top.Name(), ")."+old, 1)
+		}
+	}
 	return s
+}
+
+var baselineNameHook func(*ssa.Function) string
+
+// stableFuncName: the name of a library function as the rules know it (its baseline name if it was renamed).
+func (c *Ctx) stableFuncName(fn *ssa.Function) string {
+	if fn == nil {
+		return ""
+	}
+	if old := c.baselineName(fn); old != "" {
+		return old
+	}
+	return fn.Name()
 }
 
 // ---------------------------------------------------------------------------
